@@ -18,7 +18,7 @@ mapper/model/util/frontend is followed through locals, set-returning functions, 
 and callee parameters, and every use must be order-insensitive (membership, len, set algebra, sorted,
 keyed min/max, building oset/fzs/dict-used-by-key, commutative accumulation, guarded singleton pop).
 (S2) nothing is ordered by hash()/id()/uuid. (S3) oset/fzs stay order-stable: every set-returning
-method wraps its result and __iter__ sorts with a total fallback key. (K1) the on-disk cache key
+method wraps its result and __iter__ sorts with a total fallback key. (W1) no result-affecting statement depends on the number of worker processes (reads of the worker-count predicates are confined to a frozen table); (K1) the on-disk cache key
 covers every parameter of the cached computation. NOT decided: joblib's pickle round trip, and
 floating-point non-associativity of commutative accumulation.
 """
@@ -365,7 +365,64 @@ def _k1(ctx):
     ctx.floor(R, 4)
 
 
+W1_ALLOW = {
+    ("accelforge/mapper/FFM/_join_pmappings/join_pmappings.py", "join_pmappings"):
+        "only decides how many of the largest groups are split in half before merging; split_in_half keeps row order (iloc[:mid], iloc[mid:]) and the halves are appended to the same key",
+    ("accelforge/mapper/FFM/_make_pmappings/make_pmappings.py", "_fill_jobs_with_memories_to_track"):
+        "per-process memory/time limits (user-facing resource knobs, infinite by default); documented to scale with the worker count",
+    ("accelforge/mapper/FFM/_make_pmappings/make_pmappings.py", "get_jobs"):
+        "per-process memory/time limits (user-facing resource knobs, infinite by default); documented to scale with the worker count",
+}
+WORKER_PREDICATES = {"get_n_parallel_jobs", "is_using_parallel_processing"}
+WORKER_GLOBALS = {"N_PARALLEL_PROCESSES", "PARALLELIZE"}
+
+
+def _w1(ctx):
+    R = "C20-W1"
+    ctx.doc(R, "result-affecting data never depends on the worker count: reads of the worker-count predicates outside util/parallel.py are in a frozen table, or only feed printing")
+    n = 0
+    for fi in ctx.repo.all_funcs("accelforge/"):
+        rel = fi.module.rel
+        if rel == PAR or not any(rel.startswith(p) for p in PREFIXES):
+            continue
+        reads = [x for x in fi.walk() if (isinstance(x, ast.Call) and call_name(x) in WORKER_PREDICATES) or
+                 (isinstance(x, (ast.Name, ast.Attribute)) and isinstance(getattr(x, "ctx", None), ast.Load) and (getattr(x, "id", None) in WORKER_GLOBALS or getattr(x, "attr", None) in WORKER_GLOBALS))]
+        if not reads:
+            continue
+        top = fi
+        while top.parent is not None:
+            top = top.parent
+        pm = parent_map(fi.node)
+        for x in reads:
+            n += 1
+            reason = W1_ALLOW.get((rel, top.qual))
+            if reason:
+                ctx.ok(R, fi, x, "frozen: " + reason)
+                continue
+            # does it influence data?  if-test controlling assignments / mutations, or bound to a name
+            q = pm.get(id(x))
+            while q is not None and not isinstance(q, ast.stmt):
+                q = pm.get(id(q))
+            influenced = None
+            if isinstance(q, (ast.If, ast.While)):
+                for b in ast.walk(q):
+                    if isinstance(b, (ast.Assign, ast.AugAssign, ast.AnnAssign)) or (isinstance(b, ast.Expr) and isinstance(b.value, ast.Call) and isinstance(b.value.func, ast.Attribute)
+                                                                                     and b.value.func.attr in ("sort", "append", "extend", "reverse", "insert", "pop", "remove", "update")):
+                        influenced = b
+                        break
+            elif isinstance(q, (ast.Assign, ast.AnnAssign, ast.Return)):
+                influenced = q
+            elif isinstance(q, ast.Expr) and isinstance(q.value, ast.Call) and call_name(q.value) in ("print", "info", "debug", "warning", "log_message"):
+                influenced = None
+            else:
+                influenced = q
+            ctx.check(influenced is None, R, fi, x, f"`{norm(influenced)[:90] if influenced is not None else ''}` depends on the worker count ({norm(x)}): the data (e.g. the order of jobs, hence of results and of tie-breaks) differs "
+                                                   f"between one and several worker processes", "only feeds messages")
+    ctx.floor(R, 2)
+
+
 def check(ctx):
+    _w1(ctx)
     _u1(ctx)
     _s1(ctx)
     _s2(ctx)
@@ -397,6 +454,8 @@ VARIANTS = [
     {"kind": "F", "name": "drop-kwarg-from-cache-key", "rule": "C20-K1", "edits": [
         (MAIN, "        can_combine_multiple_runs=can_combine_multiple_runs,\n        print_progress=print_progress,\n        one_pbar_only=one_pbar_only,\n    )\n    assert len(kwargs)",
          "        print_progress=print_progress,\n        one_pbar_only=one_pbar_only,\n    )\n    assert len(kwargs)")]},
+    {"kind": "F", "name": "sort-jobs-only-when-parallel", "rule": "C20-W1", "edits": [
+        (MP, "    calls = sorted(calls, key=get_longest_mapping_length, reverse=True)", "    if is_using_parallel_processing():\n        calls = sorted(calls, key=get_longest_mapping_length, reverse=True)")]},
     {"kind": "S", "name": "sorted-set-instead-of-oset", "edits": [
         (MTS, "sorted(term.free_symbols, key=str)", "sorted(set(term.free_symbols), key=str)")]},
     {"kind": "S", "name": "membership-only-set", "edits": [
